@@ -1120,7 +1120,13 @@ class CodeBuilder:
         self.add_line(f"packer = self.__class__.{cache_name}.get(dialect)")
         self.add_line("if packer is not None:")
         if self.encoder is not None:
-            return_statement = "return encoder({})"
+            if self.encoder_kwargs:
+                encoder_options = ", ".join(
+                    f"{k}={v[0]}" for k, v in self.encoder_kwargs.items()
+                )
+                return_statement = f"return encoder({{}}, {encoder_options})"
+            else:
+                return_statement = "return encoder({})"
         else:
             return_statement = "return {}"
         with self.indent():
